@@ -3,6 +3,7 @@
 package main
 
 import (
+	"bytes"
 	"encoding/json"
 	"fmt"
 	"os"
@@ -54,7 +55,7 @@ func histRunStep(w *apiWorld, ctl *seqCtl, call int, prefix []int) (string, *cho
 }
 
 func histReplay(w *apiWorld, ctl *seqCtl, path []HistStep) (string, *chooser) {
-	zs.Reset()
+	coldReset()
 	var out string
 	var c *chooser
 	for _, st := range path {
@@ -91,6 +92,13 @@ func runHistx(ctx *core.Ctx, tier string) {
 	shard, nshards := shardInfo()
 	var rules []string
 	var trans, nontriv int64
+	if shard == 0 {
+		for _, b := range decodeBufferReuse() {
+			ctx.Violate(core.Violation{Property: "C09", Clause: "decoded-patch-aliases-buffer", Key: "C09:decoded-patch-aliases-buffer", Engine: "histx", Detail: b,
+				Case: core.J(map[string]string{"clause": "decode-buffer-reuse"})})
+		}
+		ctx.Count("decode_buffer_reuse_histories", 8)
+	}
 	for _, p := range passes {
 		histShard(ctx, tier, p[0], p[1], shard, nshards)
 		rules = append(rules, ctx.Rep.Rule)
@@ -128,12 +136,12 @@ func histShard(ctx *core.Ctx, tier string, maxDepth, bound, shard, nshards int) 
 	// residual state: what a call leaves behind that emptying the pools and caches does not remove
 	// (reported, not judged: the per-transition oracle decides whether it matters)
 	if shard == 0 {
-		zs.Reset()
+		coldReset()
 		prev := globalsDump()
 		var residual []string
 		for _, i := range w.menu {
 			w.outcome(i)
-			zs.Reset()
+			coldReset()
 			d := globalsDump()
 			if d != prev {
 				a, b := strings.Split(prev, "\n"), strings.Split(d, "\n")
@@ -158,16 +166,16 @@ func histShard(ctx *core.Ctx, tier string, maxDepth, bound, shard, nshards int) 
 		}
 	}
 	// determinism: the same call twice from the fresh state gives the same fingerprint
-	zs.Reset()
+	coldReset()
 	w.outcome(0)
 	f1 := globalsDump()
-	zs.Reset()
+	coldReset()
 	w.outcome(0)
 	if f2 := globalsDump(); f1 != f2 {
 		fmt.Fprintln(os.Stderr, "histx: state fingerprint is not deterministic; dedup disabled for this run")
 		ctx.Cap("state fingerprint not deterministic: dedup disabled (plain depth-bounded enumeration)")
 	}
-	zs.Reset()
+	coldReset()
 	ctx.AddState(globalsDump())
 	trans := new(int64)
 	ctx.Rep.Rule = fmt.Sprintf("BFS over call histories: menu of %d calls over ONE shared set of decoded Patch values and input buffers (Apply on object/array documents, ApplyIndent, copy limit hit, EscapeHTML off, failing test, malformed document, scalar root, inapplicable patch, DecodePatch ok/malformed/invalid/non-array, MergePatch x4 incl. malformed, MergeMergePatches, CreateMergePatch x4 incl. rejected/malformed, Equal x3 incl. malformed, legacy Apply and MergePatch); "+
@@ -309,6 +317,12 @@ func clip(s string, n int) string {
 }
 
 func histReplayCase(ctx *core.Ctx, raw json.RawMessage) {
+	if bytes.Contains(raw, []byte("decode-buffer-reuse")) {
+		for _, b := range decodeBufferReuse() {
+			ctx.Violate(core.Violation{Property: "C09", Clause: "decoded-patch-aliases-buffer", Key: "C09:decoded-patch-aliases-buffer", Engine: "histx", Detail: b, Case: raw})
+		}
+		return
+	}
 	var hc HistCase
 	if err := json.Unmarshal(raw, &hc); err != nil {
 		panic(err)
